@@ -280,19 +280,24 @@ pub fn check_pair(limit: usize, near_tcp_limit: bool, u: &Res, tr: &Res) -> Resu
         return Ok("identical".into());
     }
     let mu = check_wellformed(u).map_err(|(k, w)| (format!("udp-{k}"), w))?;
-    let mt = check_wellformed(tr).map_err(|(k, w)| (format!("tcp-{k}"), w))?;
     if hu.tc {
         if !mu.answers.is_empty() || !mu.authority.is_empty() || !mu.additional_data().is_empty() {
             return v("tc-with-records", format!("TC response carries an={} ns={} additional={}", mu.answers.len(), mu.authority.len(), mu.additional_data().len()));
         }
         if tr.len() <= limit {
-            if near_tcp_limit && servfail_without_records(&mt) {
-                return Ok("tc-empty(tcp-overflow-servfail)".into());
+            if near_tcp_limit {
+                let mt = check_wellformed(tr).map_err(|(k, w)| (format!("tcp-{k}"), w))?;
+                if servfail_without_records(&mt) {
+                    return Ok("tc-empty(tcp-overflow-servfail)".into());
+                }
             }
             return v("tc-although-complete-response-fits", format!("TC set although the complete response ({} octets) fits the limit {}", tr.len(), limit));
         }
+        // (The TCP response's own well-formedness is C02's subject; it is
+        // not decoded here when nothing is compared with it.)
         return Ok("tc-empty".into());
     }
+    let mt = check_wellformed(tr).map_err(|(k, w)| (format!("tcp-{k}"), w))?;
     if tr.len() <= limit {
         return v("udp-differs-although-complete-response-fits", format!("the complete response ({} octets) fits the limit {} but the UDP response ({} octets) differs", tr.len(), limit, u.len()));
     }
